@@ -3,6 +3,7 @@ package c19
 import (
 	"bytes"
 	"fmt"
+	"os"
 	"reflect"
 	"sort"
 	"strings"
@@ -31,13 +32,27 @@ type verdict struct {
 //	    compileVars ranges over a map, so the order of several vars errors is
 //	    not defined even for one and the same AST)
 //	(3) Format(Parse(out)) == out
-func check(text string) verdict {
+//
+// and, where the survival census is switched on (census.go; the size family, the k = 1,
+// standalone and layout families; everywhere with C19_CENSUS_ALL=1), when (1)-(3) hold:
+//
+//	(4) every value of the input AST is a token of the formatted text (harness's own
+//	    token reader), and no AST field occurs less often after the round trip
+func check(text string) verdict { return checkOpt(text, censusEverywhere) }
+
+var censusEverywhere = os.Getenv("C19_CENSUS_ALL") != ""
+
+func checkOpt(text string, withCensus bool) verdict {
 	src := []byte(text)
 	cfgF, err := config.Parse(src)
 	if err != nil || cfgF == nil {
 		return verdict{astOnError: err != nil && cfgF != nil}
 	}
 	v := verdict{parsed: true}
+	var before census
+	if withCensus {
+		before = takeCensus(cfgF, true) // before Format / Compile can touch the tree
+	}
 	cfgC, err := config.Parse(src) // a second, untouched AST for Compile
 	if err != nil {
 		v.kind, v.detail = "nondeterministic-parse", err.Error()
@@ -56,6 +71,10 @@ func check(text string) verdict {
 	if err != nil {
 		v.kind, v.detail = "fmt-unparseable", "formatted text does not parse: "+err.Error()
 		return v
+	}
+	var after map[string]int
+	if withCensus {
+		after = takeCensus(cfg2, false).presence
 	}
 	c2, r2 := config.Compile(cfg2)
 	v.okAfter = r2.OK
@@ -90,6 +109,14 @@ func check(text string) verdict {
 	}
 	if !bytes.Equal(out, out2) {
 		v.kind, v.detail = "fmt-unstable", fmt.Sprintf("second format differs: %q vs %q", firstDiffLine(string(out), string(out2)), firstDiffLine(string(out2), string(out)))
+		return v
+	}
+	if withCensus {
+		if d := lostValues(before.leaves, v.out); d != "" {
+			v.kind, v.detail = "fmt-loses-value", "value(s) of the input AST that are no token of the formatted text (count in AST -> count in text): "+d
+		} else if d := lostDirectives(before.presence, after); d != "" {
+			v.kind, v.detail = "fmt-loses-directive", "AST field(s) that occur less often after format + parse although the compiled meaning is equal: "+d
+		}
 	}
 	return v
 }
